@@ -1065,7 +1065,18 @@ func genSrvGoAway(p *prng, thorough bool, w *bufio.Writer) {
 			sid := g.sid()
 			b = append(b, frameBytes(1, 5, sid, g.enc.block(nil, []kv{{k: ":method", v: "GET"}, {k: ":scheme", v: "https"}, {k: ":path", v: "/"}, {k: ":authority", v: "a"}}))...)
 		}
-		g.line("srv %s racega %s", g.id, hexOrDash(b))
+		if c%2 == 1 {
+			// … and behind them an offence of the peer's own: the read loop wants a GOAWAY too while the timer's is held
+			// and the stream loop waits, first in line, to admit the new requests. All three must come through and
+			// ServeConn must return (`end` says whether it did)
+			off := [][]byte{frameBytes(8, 0, 0, u32(0)), frameBytes(6, 0, 0, []byte{1, 2, 3}), frameBytes(9, 4, g.next, nil)}[(c/2)%3]
+			g.line("srv %s racega2 %s %s", g.id, hexOrDash(b), hexOrDash(off))
+		} else {
+			g.line("srv %s racega %s", g.id, hexOrDash(b))
+		}
+		if c%2 == 1 {
+			g.line("srv %s end", g.id)
+		}
 	}
 	g.line("srv %s end", g.id)
 }
